@@ -338,7 +338,9 @@ class Repo:
         return [m for m in self.modules.values() if m.in_rules]
 
     def rule_funcs(self):
-        return [f for f in self.funcs.values() if f.mod.in_rules]
+        # new private helpers whose every call was inlined into the callers (sa/normalise.py) are transparent: rules see their statements
+        # in the callers, not a separate function
+        return [f for f in self.funcs.values() if f.mod.in_rules and not (f.parent is None and f.name in getattr(f.mod.tree, '_sa_inlined_helpers', ()))]
 
     def digest(self, modnames=None):
         h = hashlib.sha256()
